@@ -34,6 +34,7 @@ def run(ck):
     ck.touch(pr, ct, fl, mt)
     parse_rules(ck, pr, ct)
     evaluate(ck, fl, mt)
+    type_table(ck, pr, mt)
 
 
 def parse_rules(ck, pr, ct):
@@ -130,7 +131,8 @@ def parse_rules(ck, pr, ct):
         l = skip_copies(lhs)
         if l.get("k") == "member" and l.get("dk") == "field" and l.get("name", "").startswith(CF + "::Rule::"):
             rule_assigns.setdefault(l["name"].split("::")[-1], []).append((n, rhs))
-    for fld in ("category", "type", "typeMatch", "enabled"):
+    typed_fields = all(rule_assigns.get(fld) for fld in ("type", "typeMatch"))
+    for fld in ("category", "enabled") + (("type", "typeMatch") if typed_fields else ()):
         ck.require(len(rule_assigns.get(fld, [])) == 1, "Rule::%s is assigned %d times in parseRules" % (fld, len(rule_assigns.get(fld, []))))
     cat_asg, cat_rhs = rule_assigns["category"][0]
     rx = skip_copies(cat_rhs)
@@ -196,17 +198,19 @@ def parse_rules(ck, pr, ct):
                     if r_ is not None:
                         return r_
         return None
-    t_asg, t_rhs = rule_assigns["type"][0]
-    okt = is_call(deref_local(pr, t_rhs), "QtLogger::stringToQtMsgType") and captured_idx(t_rhs) == 2
-    ck.ob("C15-O4", sitestr(pr, t_asg), okt, "rule type = stringToQtMsgType(captured(2))" if okt else "rule type = %s" % describe(t_rhs), key="parseRules|type-consumer")
-    tm_asg, tm_rhs = rule_assigns["typeMatch"][0]
-    tm_rhs = deref_local(pr, tm_rhs)
-    isempty = [x for x in walk(tm_rhs) if is_call(x, ("QString::isEmpty", "QString::isNull"))]
-    v = None
-    if len(isempty) == 1 and captured_idx(tm_rhs) == 2:
-        v = [eval_cond(tm_rhs, atom_eq(lambda n, i=isempty[0]: n.get("id") == i["id"], e)) for e in (True, False)]
-    ck.ob("C15-O4", sitestr(pr, tm_asg), v == [False, True] if v is not None and None not in v else None, "rule is typed iff the suffix group captured something" if v == [False, True] else "typeMatch = %s" % describe(tm_rhs),
-          key="parseRules|typematch-consumer")
+    if typed_fields:
+        t_asg, t_rhs = rule_assigns["type"][0]
+        okt = is_call(deref_local(pr, t_rhs), "QtLogger::stringToQtMsgType") and captured_idx(t_rhs) == 2
+        ck.ob("C15-O4", sitestr(pr, t_asg), okt, "rule type = stringToQtMsgType(captured(2))" if okt else "rule type = %s" % describe(t_rhs), key="parseRules|type-consumer")
+        tm_asg, tm_rhs = rule_assigns["typeMatch"][0]
+        tm_rhs = deref_local(pr, tm_rhs)
+        isempty = [x for x in walk(tm_rhs) if is_call(x, ("QString::isEmpty", "QString::isNull"))]
+        v = None
+        if len(isempty) == 1 and captured_idx(tm_rhs) == 2:
+            v = [eval_cond(tm_rhs, atom_eq(lambda n, i=isempty[0]: n.get("id") == i["id"], e)) for e in (True, False)]
+        ck.ob("C15-O4", sitestr(pr, tm_asg), v == [False, True] if v is not None and None not in v else None, "rule is typed iff the suffix group captured something" if v == [False, True] else "typeMatch = %s" % describe(tm_rhs),
+              key="parseRules|typematch-consumer")
+    # (another representation of the type condition - a bit mask, a set - is decided by type_table() alone)
     e_asg, e_rhs = rule_assigns["enabled"][0]
     er = skip_copies(e_rhs)
     oke = er.get("k") == "call" and er.get("op") == "==" and captured_idx(er) == 3 and "true" in [const_str(a) for a in er.get("args", [])]
@@ -347,6 +351,9 @@ def truth_table(ck, mt):
     m = skip_copies(R[0].get("obj"))
     okm = is_call(m, "QRegularExpression::match") and is_this_field(m.get("obj"), CF + "::Rule::category") and is_ref_to(m["args"][0], mt.params[0]["decl"]) and all(x.get("k") == "defaultarg" for x in m["args"][1:])
     ck.ob("C15-O3", sitestr(mt, m), okm, "the category pattern is matched against the category argument with default options" if okm else "unexpected match call %s" % describe(m), key="Rule::matches|match-call")
+    rec = F.records.get(CF + "::Rule") or {}
+    if not {"type", "typeMatch"} <= {f_.get("name") for f_ in rec.get("fields", [])}:
+        return    # no (type, typeMatch) pair: the verdict table of type_table() decides the type condition
     bad = []
     unknown = False
     for r in (0, 1):
@@ -372,3 +379,74 @@ def truth_table(ck, mt):
         ck.ob("C15-O3", sitestr(mt, rs[0]), None, "Rule::matches is not a boolean function of (regex match, typeMatch, type == messageType): %s" % describe(e))
     else:
         ck.ob("C15-O3", sitestr(mt, rs[0]), not bad, "8/8 truth-table rows agree with match && (!typed || type equal)" if not bad else "wrong rows: %s" % bad, key="Rule::matches|truth-table")
+
+
+SUFFIX_TYPE = {"debug": "QtDebugMsg", "info": "QtInfoMsg", "warning": "QtWarningMsg", "critical": "QtCriticalMsg"}
+
+
+def type_table(ck, pr, mt):
+    """C15-O3 by cases: for every type suffix the grammar admits (and none) x every message type x (pattern matches or not), the
+    rule fields parseRules stores and the verdict Rule::matches computes from them are evaluated on the source (engine/conc.py);
+    the verdict must be: pattern matches && (no suffix || suffix names the message type). Independent of how the condition is stored."""
+    from engine.conc import Conc, Unknown
+    F = ck.facts
+    en = {e["name"]: e["value"] for e in F.enums["QtMsgType"]["enumerators"] if e["name"] in ("QtDebugMsg", "QtInfoMsg", "QtWarningMsg", "QtCriticalMsg", "QtFatalMsg")}
+    regs = [n for n in pr.find(lambda n: n.get("k") == "construct" and n.get("class") == "QRegularExpression") if n.get("args") and const_str(n["args"][0]) is not None]
+    suffixes = sorted(set(regex_groups(const_str(regs[0]["args"][0]))[1][0].split("|")) & set(SUFFIX_TYPE))
+    loops = [l for l in find_loops(pr) if l.get("k") == "rangefor"]
+    hm_m = [x for x in mt.calls("QRegularExpressionMatch::hasMatch")]
+    rows, wrong, unknown = 0, [], []
+    for s in [""] + suffixes:
+        def leaf_p(n, env, s=s):
+            if is_call(n, "QRegularExpressionMatch::captured") and n.get("args"):
+                i = const_int(n["args"][0])
+                return {1: "some.category", 2: s, 3: "true"}.get(i)
+            if is_call(n, "QRegularExpressionMatch::hasMatch"):
+                return 1
+            return None
+
+        def hook(lhs, v, env):
+            if lhs.get("k") == "member" and lhs.get("dk") == "field" and (lhs.get("name") or "").startswith(CF + "::Rule::"):
+                env.setdefault("__fields__", {})[lhs["name"]] = v
+                return True
+            return False
+        cp = Conc(F, leaf=leaf_p, tolerant=True, store_hook=hook)
+        env = {"__fn__": pr, "__fields__": {}}
+        # default member initialisers of Rule
+        for fld in (F.records.get(CF + "::Rule") or {}).get("fields", []):
+            dv = const_int(fld.get("init")) if isinstance(fld.get("init"), dict) else None
+            if dv is not None:
+                env["__fields__"][CF + "::Rule::" + fld["name"]] = dv
+        try:
+            try:
+                cp.exec(loops[0].get("body"), env)
+            except Exception as e:
+                if type(e).__name__ not in ("_Cont", "_Brk"):
+                    raise
+        except Unknown as e:
+            unknown.append("suffix %r: parseRules: %s" % (s, e))
+            continue
+        fields = dict(env["__fields__"])
+        for mname, mval in sorted(en.items(), key=lambda kv: kv[1]):
+            for rx in (0, 1):
+                rows += 1
+                def leaf_m(n, env, rx=rx):
+                    if hm_m and n.get("id") == hm_m[0]["id"]:
+                        return rx
+                    return None
+                cm = Conc(F, leaf=leaf_m, tolerant=True)
+                try:
+                    got = cm.call_fn(mt, ["some.category", mval], dict(fields))
+                except Unknown as e:
+                    unknown.append("suffix %r, %s, pattern %s: Rule::matches: %s" % (s, mname, "matches" if rx else "does not match", e))
+                    continue
+                want = int(bool(rx and (s == "" or en[SUFFIX_TYPE[s]] == mval)))
+                if int(bool(got)) != want:
+                    wrong.append("%s rule, %s message, pattern %s -> %s" % (("'.%s'" % s) if s else "untyped", mname, "matches" if rx else "does not match", "match" if got else "no match"))
+    if wrong:
+        ck.ob("C15-O3", sitestr(mt), False, "type condition of a rule is wrong in %d of %d cases: %s" % (len(wrong), rows, "; ".join(wrong[:6])), key="Rule::matches|type-table")
+    elif unknown:
+        ck.ob("C15-O3", sitestr(mt), None, "type condition of a rule could not be tabulated: %s" % "; ".join(unknown[:3]), key="Rule::matches|type-table")
+    else:
+        ck.ob("C15-O3", sitestr(mt), True, "%d cases (suffix none/%s x 5 message types x pattern matches or not) evaluated through parseRules' stores and Rule::matches: verdict = match && (untyped || type named by the suffix)"
+              % (rows, "/".join(suffixes)), key="Rule::matches|type-table")
